@@ -63,9 +63,11 @@ def step (_ : Unit) (ts : List String) : Unit × String :=
         | .error f => showFault f
       | none => "bad-op"
     | ["srv", h] => match unhex h with
-      | some d => match serve { inp := d } with
-        | .ok (s, rs) => showServed rs ++ " | " ++ showSock s true
-        | .error f => showFault f
+      | some d => match serve { inp := d }, serveLoopAt { inp := d } with
+        | .ok (s, rs), .ok (_, _, ats) =>
+          showServed rs ++ " | " ++ showSock s true ++ " at=" ++ (if ats.isEmpty then "-" else ",".intercalate (ats.map toString))
+        | .error f, _ => showFault f
+        | _, .error f => showFault f
       | none => "bad-op"
     | "tcp" :: hs => match hs.mapM unhex with
       | some ds =>
